@@ -1163,6 +1163,10 @@ def solve(objfun, x0, h=None, lh=None, prox_uh=None, argsf=(), argsh=(), argspro
             and nruns - last_successful_run >= params("restarts.max_unsuccessful_restarts"):
         exit_info = ExitInformation(EXIT_SUCCESS, "Reached maximum number of unsuccessful restarts")
 
+    # Never report success if the best objective value found is NaN/inf (e.g. objfun failed at every evaluation)
+    if exit_info.flag == EXIT_SUCCESS and not np.isfinite(objmin):
+        exit_info = ExitInformation(EXIT_EVAL_ERROR, "Best objective value found is not finite")
+
     # Process final return values & package up
     exit_flag = exit_info.flag
     exit_msg = exit_info.message(with_stem=True)
